@@ -76,7 +76,7 @@ CLAIMED = {
             "C07_reduceObs_single. Every run: C01/C02 generator x {fix_gamma, fix_dalpha, fix_alpha, fix_alpha+fix_gamma} x variance "
             "classes {0, 1e-20, comparable, 100x}: reduced rows/weights vs model, optimum vs exact WLS, value/variance/zero covariance "
             "of the fixed parameter and finiteness checked on the result.",
-            NOTE + WLSNOTE + "fix_alpha variance at the first reference location taken as 0.", "§8 C07"),
+            NOTE + TRANSL + WLSNOTE + "fix_alpha variance at the first reference location taken as 0.", "§8 C07"),
     "C08": ("Lean 4: the sampler's index arithmetic equals the documented layout (all sizes), percentile monotonicity; unit-perturbation samplers give an exact unpacking correspondence; statistical sub-checks with fixed seeds",
             "Proof: C08_fromI_head, C08_fromI_alpha, C08_unpack_matches_layout_double (the Fortran-order reshape of the sampled tail "
             "reads tau^d_{a,t} from its documented slot), C08_unpack_matches_layout_single, C08_percentile_monotone (linear-interpolation "
